@@ -76,7 +76,7 @@ def zlit(n):
 
 
 def zlist(v):
-    return '[' + '; '.join(zlit(x) for x in v) + ']'
+    return '[' + '; '.join(zlit(x) for x in v) + ']%Z'
 
 
 def natlist(v):
